@@ -22,12 +22,12 @@ META = {
                  '_lipschitz: each measurement accumulated at most once under the first containing clique of the same sorted list (hence the same clique as _setup).',
              trusted=['sorted / set / sparse.eye / domain.size are deterministic callees', 'L-spec (eigenvalue sub-additivity and the marginalisation bound) turning the per-clique sums into a Hessian bound: assumed, exercised bounded']),
  'C05': dict(level='proof', technique=DED + ': ghost privacy ledger (zCDP / pure-DP) as postcondition and loop invariant of every mechanism function, sensitivities as ghost attributes of private values',
-             ded='MST, measure, select, compress_domain, transform_data; mwem_pgm (4 parameter spellings x noise kinds, bounded flag symbolic), worst_approximated; AIM.run, Mechanism.__init__; adagrid (both split modes), select: '
+             ded='MST, measure, select, compress_domain, transform_data; mwem_pgm (4 parameter spellings x noise kinds, bounded flag symbolic), worst_approximated; AIM.run, AIM.worst_approximated, Mechanism.__init__; adagrid (both split modes), select: '
                  'ledger <= cdp_rho(eps, delta) (resp. <= eps in Laplace mode) at every normal return, for all datasets, neighbours and random outcomes (the proof never inspects them).',
              trusted=['L-dp: Gaussian rho = Delta2^2/(2 sigma^2); Laplace eps = Delta1/b; exponential mechanism with log-odds eps/(2 Delta) is eps-DP and eps^2/8-zCDP; adaptive composition adds; post-processing is free; rho-zCDP => (eps, cdp_delta(rho, eps))-DP',
                       'L-sens: a marginal count vector has L1 = L2 sensitivity 1 under add/remove, (2, sqrt 2) under replace; the L1 error against a public vector is 1-Lipschitz',
                       'C20 site contracts of the selection primitives and of Mechanism.gaussian_noise (proved there)', 'cdp_rho >= 0 (proved in C07)',
-                      'ASSUMED contract of AIM.worst_approximated (eps-DP selection; its two-dict loop is not yet under the ledger domain)',
+                      'extern contract of dict: when every key is stored once, max(d.values()) is the maximum of the values stored (AIM.worst_approximated)',
                       'ASSUMED: stacked Adaptive-Grid query matrices have column 2-norm <= 1 ("sensitivity 1 by construction"), enforced at run time by the bounded tier',
                       'counting lemma count_len_lt (elementary), sumsq scaling and closed form for np.ones (lemmas of the sequence theory)'],
              assumptions=['floats are mathematical reals: every "<= rho" is proved up to rounding',
